@@ -1,4 +1,4 @@
-#![allow(dead_code, unused_imports, clippy::too_many_arguments)]
+#![allow(dead_code, unused_imports, clippy::too_many_arguments, clippy::missing_safety_doc)]
 mod backend;
 mod clock;
 mod codec;
